@@ -119,6 +119,10 @@ type scenario struct {
 	// after itself (schedule point dialWorker:exiting, build tag verif): 0 nothing, < 0 that many
 	// yields, > 0 a pause in virtual time. A new worker for the same peer can be at work meanwhile.
 	workerExit time.Duration
+	// missing: a transport the swarm does not have ("" = it has all of them): its addresses cannot be
+	// dialled, and a lower-priority form on the same ip:port (ws next to tcp, webtransport next to
+	// quic-v1) is then the only way in and must be attempted
+	missing string
 }
 
 // workerExitDelay is what the installed schedule-point function does for the running case.
@@ -138,6 +142,14 @@ func init() {
 			}
 		}
 	})
+}
+
+// probeSuffix: the token probes need file-descriptor consuming addresses of a transport the swarm has
+func (sc *scenario) probeSuffix() string {
+	if sc.missing == "tcp" {
+		return "/ws"
+	}
+	return ""
 }
 
 type closeSpec struct {
@@ -283,6 +295,27 @@ func drawScenario(rt *rapid.T) *scenario {
 	np := rapid.IntRange(1, 3).Draw(rt, "npeers")
 	for pi := 0; pi < np; pi++ {
 		sc.addrs = append(sc.addrs, drawAddrs(rt, pi))
+	}
+	sc.missing = rapid.SampledFrom([]string{"", "", "", "", "", "tcp", "quic"}).Draw(rt, "missingTransport")
+	for _, as := range sc.addrs {
+		for _, a := range as {
+			ps := a.dialled.Protocols()
+			lastCode := -1
+			if len(ps) > 0 {
+				lastCode = ps[len(ps)-1].Code
+			}
+			switch {
+			case sc.missing == "tcp" && lastCode == ma.P_TCP:
+				a.filtered = true
+			case sc.missing == "quic" && lastCode == ma.P_QUIC_V1:
+				a.filtered = true
+			case sc.missing == "tcp" && a.kind == kWSShadow, sc.missing == "quic" && a.kind == kWTShadow:
+				a.filtered = false
+				if a.kind == kWSShadow {
+					a.fd = true
+				}
+			}
+		}
 	}
 	for r := 0; r < 2; r++ {
 		for pi := 0; pi < np; pi++ {
@@ -441,7 +474,13 @@ func runScenario(t *testing.T, rt *rapid.T, name string, sc *scenario) {
 		if err != nil {
 			rt.Fatalf("swarm: %v", err)
 		}
+		if sc.missing != "" {
+			labels["swarm-without-"+sc.missing+"-transport"] = true
+		}
 		for _, tr := range set.All() {
+			if (sc.missing == "tcp" && tr == set.TCP) || (sc.missing == "quic" && tr == set.QUIC) {
+				continue
+			}
 			var tt interface {
 				Protocols() []int
 			} = tr
@@ -592,7 +631,7 @@ func runScenario(t *testing.T, rt *rapid.T, name string, sc *scenario) {
 			ps.ClearAddrs(p)
 			n := 10
 			for k := 0; k < n; k++ {
-				ps.AddAddr(p, ma.StringCast(fmt.Sprintf("/ip4/9.1.%d.%d/tcp/4001", pi, k+1)), time.Hour)
+				ps.AddAddr(p, ma.StringCast(fmt.Sprintf("/ip4/9.1.%d.%d/tcp/4001%s", pi, k+1, sc.probeSuffix())), time.Hour)
 			}
 			ctx, cancel := context.WithCancel(context.Background())
 			done := make(chan struct{})
@@ -675,7 +714,7 @@ func checkRound(rt *rapid.T, sc *scenario, round int, results []*callResult, w *
 		}
 	}
 	fail := func(format string, args ...any) {
-		rt.Fatalf("round %d: %s\ncaps perPeer=%d fd=%d workerExit=%v\naddrs %s\ncallers %s\ndials:\n%s", round, fmt.Sprintf(format, args...), sc.perPeer, sc.fdCap, sc.workerExit,
+		rt.Fatalf("round %d: %s\ncaps perPeer=%d fd=%d workerExit=%v missing=%q\naddrs %s\ncallers %s\ndials:\n%s", round, fmt.Sprintf(format, args...), sc.perPeer, sc.fdCap, sc.workerExit, sc.missing,
 			describeAddrs(sc), describeCallers(results, t0), dumpDials(w, t0))
 	}
 	// O5: concurrency caps, measured inside the transport
@@ -1088,7 +1127,7 @@ func probeTokens(rt *rapid.T, sc *scenario, sw *swarm.Swarm, ps interface {
 	probe := keys.Ed(60 + round).ID
 	n := 10
 	for k := 0; k < n; k++ {
-		ps.AddAddr(probe, ma.StringCast(fmt.Sprintf("/ip4/9.0.%d.%d/tcp/4001", round, k+1)), time.Hour)
+		ps.AddAddr(probe, ma.StringCast(fmt.Sprintf("/ip4/9.0.%d.%d/tcp/4001%s", round, k+1, sc.probeSuffix())), time.Hour)
 	}
 	ctx, cancel := context.WithCancel(context.Background())
 	done := make(chan struct{})
